@@ -154,6 +154,16 @@ register("C12",
     "Trusted: the interpreter; ConnRef / ConnEnd / Router are abstracted by hooks that record end-point updates.",
     "abstract interpretation of the write-back recursion on an enumerated family of abstract trees + CFG coverage rules",
     "DESIGN.md §5 C12")
+register("C13",
+    "Decides the step-length mechanism topology preservation rests on: TriConstraint::maxSafeAlpha returns 1, or exactly the alpha at "
+    "which the constraint's own slack() vanishes on the line from initial to final positions (symbolic rational identity, both "
+    "orientations); Node::posOnLine is that interpolation; TopologyConstraints::solve takes the minimum alpha over every topology "
+    "constraint, moves every node by it, satisfies (splits / merges) the limiting constraint whenever alpha < 1 and reports it, and the "
+    "add-on repeats while it does. Does not decide that the generated constraints cover every node/segment pair, overlap freedom, or "
+    "convexity of bends.",
+    "Trusted: the interpreter; logging macros abstracted away; clang CFG.",
+    "symbolic interpretation (rational identities) + CFG argmin / coverage rules",
+    "DESIGN.md §5 C13")
 register("C14",
     "Weak but exact: along every path of doHOLA the padding applied to the caller's nodes sums to zero for core nodes and for non-root tree "
     "nodes (abstract execution over polynomial padding sums), padding primitives add exactly (dw,dh) to every intended node, every routing "
@@ -163,10 +173,9 @@ register("C14",
     "abstract interpretation of doHOLA over an additive padding domain + who-writes / constructor-argument rules",
     "DESIGN.md §5 C14")
 for _p, _r in {
- "C13": "topology preservation depends on run-time geometry of paths and rectangles; the library's own checks are run-time asserts",
  "C19": "partition / planarity of decompositions are invariants of run-time graph data",
 }.items():
     na(_p, _r)
-for _p in ["C01","C02","C03","C04","C05","C06","C07","C08","C09","C10","C11","C12","C14","C16","C17","C18","C20"]:
+for _p in ["C01","C02","C03","C04","C05","C06","C07","C08","C09","C10","C11","C12","C13","C14","C16","C17","C18","C20"]:
     if _p not in CHECKS:
         na(_p, "static check designed (DESIGN.md §5) but not yet registered in this commit")
